@@ -61,3 +61,13 @@ claim('C17', 'deductive VCs (pyvc): all-paths fault forking of every primitive, 
 claim('C18', 'deductive VCs (pyvc): lexists obligation, move-source post (normpath, no trailing slash), for_file post (only the parent resolved), volume post',
       'presence is decided by lstat; the move source is the normalised argument without trailing slash; the recorded location keeps the base name and resolves only the parent; the volume is that of the entry with its parent resolved',
       PUT_TB + '; rename(2) of a path without trailing slash acts on the link itself (axiom about the OS)', 'DESIGN.md section 4 C18')
+
+claim('C03', 'deductive VCs (pyvc): make_trashinfo_data post, symbolic execution of the real readers on the real writer text, 255 per-byte induction-step VCs for the safe set and decoder read from the source',
+      'content == "[Trash Info]\\nPath=" + quote(location) + "\\nDeletionDate=" + strftime(now) + "\\n"; location absolute (home) or relative to the volume without ".."; parse_path(text) = unquote(quote(location)) and parse_deletion_date(text) = now truncated to seconds; unquote(quote(s)) = s by induction over bytes (step discharged per byte)',
+      PUT_TB + '; urllib quote/unquote modelled as enc(utf8(s)) / utf8(dec(t)); strftime/strptime inverse axiom for year >= 1000; names that are not valid UTF-8 are refused by trash-put (no info written)', 'DESIGN.md section 4 C03')
+claim('C02', 'deductive VCs (pyvc) + composition lemmas over the writer, reader, restorer, sort and pipeline contracts',
+      'the location written re-joins to realpath(parent)/basename under the volume the reader pairs with that trash dir (absolute locations ignore it); the payload path is the same function of the info path on both sides; a restore is mkdirs(parent), move(payload -> location), remove(info) and nothing else; every sort mode is a list permutation; index i restores the entry printed at i',
+      PUT_TB + '; rename(2) preserves the entry (axiom); history quantifier by disjoint frames + stated induction; pipeline VC bounded as in C13', 'DESIGN.md section 4 C02')
+claim('C09', 'deductive VCs (pyvc): list generator contract per entry + view-update steps of put / restore / rm / empty; induction over histories stated',
+      'trash-list prints exactly one "<date> <join(V, unquote(Path))>" line per *.trashinfo entry of the scanned directories; each command changes the set of info files exactly as the bag model says (one new exclusively created info per successful put, exactly the selected/matching/old entries removed)',
+      PUT_TB + '; induction schema over command histories stated, not mechanised; inherits the C01 cross-device and C20 home-volume known findings', 'DESIGN.md section 4 C09')
